@@ -1,6 +1,6 @@
 /-
   Y0.Lemmas.CtfTrCondLink — from the executable model of lines 1-2 of Algorithm 3 (`condComps`, `line2C`) and the decidable
-  class `ctfTRLinkClass` (Y0/Model/CtfTr.lean) to the hypotheses of the semantic core (`CondSem`,
+  class `ctfTRSoundClass` (Y0/Model/CtfTr.lean) to the hypotheses of the semantic core (`CondSem`,
   Y0/Lemmas/CtfTrCondSem.lean): the members of the ancestral sets, each in the full world of its root, form a family closed
   under "mechanism argument" up to literal subscripts and cut (conditioned) vertices.
 -/
@@ -80,7 +80,7 @@ theorem consistentIvs_iff (S : List Iv) : consistentIvs S = true ↔ ConsistentS
     · exact Or.inr (h i hi j hj hij)
     · exact Or.inl hij
 
-/-- what `ctfTRLinkClass` says -/
+/-- what `ctfTRSoundClass` says -/
 structure LinkClass (g : MG Name) (o c : Event) (comps : List (List Var)) : Prop where
   comps_ok : condComps g o c = .ok comps
   oneWorld : ∀ a ∈ comps.flatten, ∀ b ∈ comps.flatten, a.name = b.name → a = b
@@ -90,9 +90,9 @@ structure LinkClass (g : MG Name) (o c : Event) (comps : List (List Var)) : Prop
   cons : ∀ p ∈ o ++ c, ConsistentSubs p.1.ivs
   lit : ∀ p ∈ o ++ c, ∀ i ∈ p.1.ivs, (∃ a ∈ comps.flatten, a.name = i.name) → i.name ∈ eventNames c
 
-theorem linkClass_of (g : MG Name) (o c : Event) (h : ctfTRLinkClass g o c = true) :
+theorem linkClass_of (g : MG Name) (o c : Event) (h : ctfTRSoundClass g o c = true) :
     ∃ comps, LinkClass g o c comps := by
-  unfold ctfTRLinkClass at h
+  unfold ctfTRSoundClass at h
   cases hc : condComps g o c with
   | error e => rw [hc] at h; cases h
   | ok comps =>
